@@ -14,6 +14,7 @@
 package evm
 
 import (
+	"errors"
 	"runtime"
 	"sync"
 	"sync/atomic"
@@ -28,6 +29,8 @@ import (
 )
 
 var (
+	errEmptyTx = errors.New("empty transaction")
+
 	validateRoutineCount = runtime.NumCPU()
 	// validateRoutineCount = 1
 )
@@ -159,6 +162,10 @@ func txQueue(tptx gtypes.Tx, apptxQ [][]appTx, i, j int) error {
 		if err := rlp.DecodeBytes(tptx, cur.tx); err != nil {
 			cur.err = err
 		}
+	} else {
+		// Zero-length bytes are not a transaction: without an error they would reach the executor
+		// with a nil *Transaction, which dereferences it.
+		cur.err = errEmptyTx
 	}
 
 	atomic.StoreInt32(&cur.status, appTxStatusInit)
